@@ -188,6 +188,23 @@ func main() {
 					tok = 4242
 				}
 				err = kv.Release(ctx, key(op.K), tok)
+			case "flipreopen": // clean Close, then New with a hash function that differs for the keys op.Ks: mutations of their data must be refused whole
+				kv.Close()
+				flipped := map[string]bool{}
+				for _, k := range op.Ks {
+					flipped[h.Keys[k-1]] = true
+				}
+				hf := func(b []byte) uint64 {
+					if flipped[string(b)] {
+						return chord.Hash(b) ^ 0x5a5a
+					}
+					return chord.Hash(b)
+				}
+				kv, err = sqlite3.New(sqlite3.Config{Logger: zap.NewNop(), HashFn: hf, DataDir: h.Dir})
+				if err != nil {
+					out.WriteString(fmt.Sprintf("ACK %d error:reopen: %v\n", n+1, err))
+					os.Exit(0)
+				}
 			case "reopen": // clean Close (checkpoint, log removed) and New in the same process
 				kv.Close()
 				kv, err = sqlite3.New(sqlite3.Config{Logger: zap.NewNop(), HashFn: chord.Hash, DataDir: h.Dir})
